@@ -117,7 +117,7 @@ func marshalAs(c *engine.Ctx, format string, v any) ([]byte, error) {
 func runC09(c *engine.Ctx) {
 	p := c.Plan
 	feats := map[string]bool{}
-	w := &signWorld{c: c, features: map[string]bool{}, yamlSafe: true, rich: p.Draw(4, "cfg:rich") != 0, allowOddKeys: true}
+	w := &signWorld{c: c, features: map[string]bool{}, yamlSafe: true, rich: p.Draw(4, "cfg:rich") != 0, allowOddKeys: true, oddSources: true}
 	strf := func(pos string) string {
 		s := w.str(pos)
 		for _, l := range gen.Lookalikes {
